@@ -173,12 +173,12 @@ fn load_sources(thorough: bool) -> Vec<Source> {
     ] {
         add(f, 1);
     }
-    for f in ["fonts/opentype/Klei.otf", "fonts/opentype/OpenSans-Regular.ttf", "fonts/noto/NotoSansThai-Regular.ttf", "fonts/opentype/cff2/SourceSans3-Instance.256.otf", "fonts/opentype/TerminusTTF-4.47.0.ttf", "fonts/noto/NotoNaskhArabic-Regular.ttf", "fonts/opentype/SourceCodePro-Regular.otf"] {
+    for f in ["fonts/opentype/Klei.otf", "fonts/opentype/OpenSans-Regular.ttf", "fonts/noto/NotoSansThai-Regular.ttf", "fonts/opentype/cff2/SourceSans3-Instance.256.otf", "fonts/opentype/TerminusTTF-4.47.0.ttf", "fonts/noto/NotoNaskhArabic-Regular.ttf", "fonts/opentype/SourceCodePro-Regular.otf", "fonts/noto/NotoSansLao-Regular.ttf"] {
         add(f, 0);
     }
     if !thorough {
         // large fonts, quick tier: only their special glyphs (composites with transforms ...) and the cmap thresholds
-        for f in ["fonts/arabic/amiri-regular.ttf", "fonts/malayalam/Rachana-Regular.ttf"] {
+        for f in ["fonts/arabic/amiri-regular.ttf", "fonts/malayalam/Rachana-Regular.ttf", "fonts/noto/NotoSansJP-Regular.otf", "fonts/noto/NotoSerifKhmer-Regular.ttf"] {
             add(f, 2);
         }
     }
@@ -194,6 +194,23 @@ fn load_sources(thorough: bool) -> Vec<Source> {
         ] {
             add(f, f.contains("Zycon") as u8);
         }
+    }
+    // synthetic sources: cmap shapes no fixture has
+    {
+        use otmodel::cmapenc::{self, Seg4, Term4};
+        use otmodel::tables;
+        // (a) Unicode format 4 whose FINAL segment ends at 0xFFFF and maps real characters (no stand-alone terminator)
+        let segs = [
+            Seg4::Delta { start: 0x41, end: 0x43, delta: (1i32 - 0x41) as i16 },
+            Seg4::Array { start: 0xFFFD, end: 0xFFFF, delta: 0, entries: vec![4, 5, 0] },
+        ];
+        let (sub, _) = cmapenc::fmt4(&segs, Term4::InLastSegment);
+        let d = tables::minimal_font(7, &[], &[(otmodel::tag(b"cmap"), tables::cmap_table(&[(3, 1, sub)]))]);
+        v.push(Source { name: "synthetic/cmap4-final-segment-maps-characters".into(), data: d, num_glyphs: 7, small: true, light: false });
+        // (b) Windows Symbol font covering the whole block 0xF020..0xF0FF (usFirstCharIndex 0xF020)
+        let (sub, _) = cmapenc::fmt4(&[Seg4::Delta { start: 0xF020, end: 0xF0FF, delta: (1i32 - 0xF020) as i16 }], Term4::Standard);
+        let d = tables::minimal_font(226, &[], &[(otmodel::tag(b"cmap"), tables::cmap_table(&[(3, 0, sub)])), (otmodel::tag(b"OS/2"), tables::os2_v4(0xF020, 0xF0FF))]);
+        v.push(Source { name: "synthetic/symbol-F020-F0FF".into(), data: d, num_glyphs: 226, small: false, light: true });
     }
     v
 }
@@ -211,6 +228,13 @@ fn special_composites(data: &[u8]) -> Vec<u16> {
     let Some(offs) = read::loca_offsets(loca, n, long) else { return Vec::new() };
     let mut seen: std::collections::BTreeSet<u16> = std::collections::BTreeSet::new();
     let mut out = Vec::new();
+    let is_composite = |g: usize| -> bool {
+        if g + 1 >= offs.len() {
+            return false;
+        }
+        let (a, b) = (offs[g] as usize, offs[g + 1] as usize);
+        b > a && b <= glyf.len() && b - a >= 12 && i16::from_be_bytes([glyf[a], glyf[a + 1]]) < 0
+    };
     for g in 0..n as usize {
         let (a, b) = (offs[g] as usize, offs[g + 1] as usize);
         if b <= a || b > glyf.len() || b - a < 12 {
@@ -227,6 +251,10 @@ fn special_composites(data: &[u8]) -> Vec<u16> {
                 break;
             }
             let flags = u16::from_be_bytes([rec[p], rec[p + 1]]);
+            // a component that is itself a composite glyph (nested composite: the subsetter's closure must follow it)
+            if is_composite(u16::from_be_bytes([rec[p + 2], rec[p + 3]]) as usize) {
+                class |= 0x8000;
+            }
             class |= flags & (0x0001 | 0x0008 | 0x0040 | 0x0080 | 0x0100 | 0x0200 | 0x0800 | 0x1000);
             if flags & 0x0002 == 0 {
                 class |= 0x4000; // point-number arguments
@@ -248,6 +276,38 @@ fn special_composites(data: &[u8]) -> Vec<u16> {
 fn glyph_lists(src: &Source, thorough: bool) -> Vec<Vec<u16>> {
     let n = src.num_glyphs;
     let mut out: Vec<Vec<u16>> = Vec::new();
+    // CID-keyed CFF: glyph pairs that straddle a Font DICT boundary of FDSelect (the boundaries are read with allsorts from
+    // the SOURCE only to choose inputs; the oracle is the outline comparison)
+    {
+        let bounds: Vec<u16> = guard(|| {
+            let fd = ReadScope::new(&src.data).read::<FontData<'_>>().ok()?;
+            let p = fd.table_provider(0).ok()?;
+            let cffd = p.read_table_data(tag::CFF).ok()?;
+            let cff = ReadScope::new(&cffd).read::<CFF<'_>>().ok()?;
+            let font = cff.fonts.first()?;
+            let allsorts::cff::CFFVariant::CID(cid) = &font.data else { return None };
+            let mut v = Vec::new();
+            let mut prev = cid.fd_select.font_dict_index(0);
+            for g in 1..n {
+                let cur = cid.fd_select.font_dict_index(g);
+                if cur != prev {
+                    v.push(g);
+                }
+                prev = cur;
+            }
+            Some(v)
+        })
+        .ok()
+        .flatten()
+        .unwrap_or_default();
+        for g in bounds.into_iter().take(if thorough { 64 } else { 10 }) {
+            out.push(vec![0, g - 1, g]);
+            out.push(vec![0, g, g - 1]);
+            if g + 1 < n {
+                out.push(vec![0, g - 1, g, g + 1]);
+            }
+        }
+    }
     // every class of composite glyph alone and next to its first component's neighbours
     for g in special_composites(&src.data).into_iter().take(if thorough { 64 } else { 24 }) {
         if g != 0 {
@@ -288,6 +348,10 @@ fn glyph_lists(src: &Source, thorough: bool) -> Vec<Vec<u16>> {
             g += step;
         }
         for k in [2u16, 255, 256, 257, n] {
+            // the whole-font lists of the large quick-tier sources are left to the thorough tier
+            if src.light && k == n && n > 1000 {
+                continue;
+            }
             if k <= n && k >= 2 {
                 out.push((0..k).collect());
                 let mut r: Vec<u16> = vec![0];
@@ -302,6 +366,30 @@ fn glyph_lists(src: &Source, thorough: bool) -> Vec<Vec<u16>> {
         // C08 thresholds: lists whose retained characters are all Mac Roman (or that retain no character at all) with
         // <= 255 and > 255 glyphs, arranged so that a mapped glyph receives a new id above 255
         if let Some((enc, map)) = guard(|| source_selected_map(&src.data)).ok().flatten() {
+            if enc == "Symbol" {
+                // the lowest and highest symbol codes (block boundaries 0xF020 / 0xF0FF, 0x7F/0x80), alone and together
+                let codes: Vec<(u32, u16)> = map.iter().filter(|(_, g)| **g != 0).map(|(c, g)| (*c, *g)).collect();
+                let mut edge: Vec<u16> = Vec::new();
+                for (c, g) in codes.iter().take(2).chain(codes.iter().rev().take(3)) {
+                    let _ = c;
+                    if !edge.contains(g) {
+                        edge.push(*g);
+                    }
+                }
+                for (c, g) in &codes {
+                    if matches!(c & 0xFF, 0x7E | 0x7F | 0x80 | 0xFE | 0xFF) && !edge.contains(g) {
+                        edge.push(*g);
+                    }
+                }
+                for g in &edge {
+                    out.push(vec![0, *g]);
+                }
+                if edge.len() > 1 {
+                    let mut l = vec![0u16];
+                    l.extend(edge.iter());
+                    out.push(l);
+                }
+            }
             if enc == "Unicode" {
                 let mut mac_glyphs: Vec<u16> = Vec::new();
                 let mut non_mac: std::collections::BTreeSet<u16> = std::collections::BTreeSet::new();
@@ -516,7 +604,12 @@ fn check_case(ctx: &Ctx, which: Which, case: &Case<'_>, src_map: &Option<(String
             ctx.violation(&format!("{}:panic:{}", id, p.site_key("/repo")), || json!({"case": case.describe(), "panic": p.msg, "at": p.loc()}));
             return false;
         }
-        Ok(Err(_e)) => return false, // the properties speak about successful subsets
+        Ok(Err(_e)) => {
+            if std::env::var_os("VERIF_DEBUG_C07").is_some() && case.src.name.starts_with("synthetic") {
+                eprintln!("DEBUG subset failed: {} {:?} {:?}: {}", case.src.name, case.list, case.opt, _e);
+            }
+            return false; // the properties speak about successful subsets
+        }
         Ok(Ok(o)) => o,
     };
     let bare_cff = !(out.len() >= 4 && (out[..4] == [0, 1, 0, 0] || &out[..4] == b"OTTO"));
@@ -596,6 +689,8 @@ fn check_case(ctx: &Ctx, which: Which, case: &Case<'_>, src_map: &Option<(String
             let out_pid_eid = recs.first().map(|r| (r.platform, r.encoding)).unwrap_or((9, 9));
             let new_id: BTreeMap<u16, u16> = list.iter().enumerate().map(|(i, g)| (*g, i as u16)).collect();
             let macroman_target = case.opt == Opt::PrinceMacRoman;
+            // OS/2.usFirstCharIndex of the source (independent read: offset 64 of the table)
+            let symbol_first_char: u32 = provider.read_table_data(tag::OS_2).ok().filter(|d| d.len() >= 66).map(|d| u16::from_be_bytes([d[64], d[65]]) as u32).unwrap_or(0xF020);
             // expected output map in *character* space
             let mut expect: BTreeMap<u32, u16> = BTreeMap::new();
             // Mac Roman target only: characters that may be kept or dropped (if kept, with this glyph)
@@ -608,6 +703,13 @@ fn check_case(ctx: &Ctx, which: Which, case: &Case<'_>, src_map: &Option<(String
                     // source code -> character
                     let ch = match enc.as_str() {
                         "Unicode" => Some(code),
+                        // Symbol source, Mac Roman target: the symbol code is turned back into the text character a user would
+                        // type for it (usFirstCharIndex stands for U+0020; the code may be written with or without the 0xF000
+                        // private-use offset), and that character decides the Mac Roman byte
+                        "Symbol" if macroman_target => {
+                            let code0 = if (0xF000..=0xF0FF).contains(&code) { code } else { code + 0xF000 };
+                            (code0 + 0x20).checked_sub(symbol_first_char)
+                        }
                         "Symbol" => Some(code),
                         "AppleRoman" => Some(mac_char_of(code as u8)),
                         _ => None,
@@ -633,8 +735,8 @@ fn check_case(ctx: &Ctx, which: Which, case: &Case<'_>, src_map: &Option<(String
                     observed.insert(ch, g);
                 }
             }
-            if enc == "Symbol" && macroman_target {
-                return false; // legacy symbol -> Mac Roman remapping: not modelled
+            if std::env::var_os("VERIF_DEBUG_C07").is_some() && case.src.name.starts_with("synthetic/symbol") && macroman_target {
+                eprintln!("DEBUG symbol mac: list={:?} enc={} first={:#x} expect={:?} observed={:?} out_rec={:?}", &list[..list.len().min(6)], enc, symbol_first_char, expect, observed, out_pid_eid);
             }
             for (ch, n) in expect.iter() {
                 let got = observed.get(ch).copied().unwrap_or(0);
@@ -744,7 +846,7 @@ pub fn run_which(ctx: &Ctx, which: Which) {
             for &o in opts {
                 // the Prince options differ from Subset only in the cmap / CID handling: exercise them on a third of the lists
                 let h = H::new().bytes(&l.iter().flat_map(|g| g.to_be_bytes()).collect::<Vec<u8>>()).get();
-                if o != Opt::Subset && !s.small && h % 3 != 0 {
+                if o != Opt::Subset && !s.small && !s.light && h % 3 != 0 {
                     continue;
                 }
                 if o == Opt::PrinceSupplied && l.len() > 200 {
